@@ -1,7 +1,7 @@
 SPECIFICATION Spec
 CONSTANTS
   Shapes0 <- MCShapes
-  Acts = {"read", "insert", "remove", "refine", "reverse", "transpose", "flip", "set_ctrlpts", "set_weights", "scale_weights", "translate", "sample_size"}
+  Acts = {"read", "insert", "remove", "refine", "reverse", "transpose", "flip", "set_ctrlpts", "set_weights", "scale_weights", "translate", "scale", "sample_size", "sample_size_dir"}
   MaxDepth = 3
   DepthCurve = 3
   DepthSurf = 3
